@@ -1,6 +1,9 @@
 (* C02Proofs.v -- "the active configuration is always a legal, stable statechart configuration".
 
-   STATUS: complete for C02_step / C02_run (no admits, all Print Assumptions closed).
+   STATUS: complete -- C02_step, C02_run, C02_stabilize_terminates (and more: C02_fuel_irrelevant),
+   decidable checker wf_chart_b with soundness, concrete example.  No admits; every Print Assumptions at
+   the end of the file prints "Closed under the global context".  Nothing is partial or refuted (the model
+   mirrors the repaired _create_stabilization_step, see DESIGN.md section 8(1)).
 
    Main theorems
    -------------
@@ -16,31 +19,42 @@
      C02_final_absorbing    once final (initialised, empty configuration) always final
      C02_legal_stable       legal -> stable
    Under the well-formedness hypotheses of Section WF (= DESIGN.md section 2, see below):
-     wk_stable_legal        weak invariant (no duplicates, states exist, parent-closed, at most one active
+     wk_stable_legal        weak invariant wk (no duplicates, states exist, parent-closed, at most one active
                             child per compound) + root active + stable  ->  legal
+                            (the planned extra premise NoDup cfg is part of wk)
      C02_step               Inv st -> execute_once fuel now st = (st', inl _) -> Inv st'
                             for EVERY evaluator (exec_code/eval_code), every listener (emit), every fuel,
-                            where  Inv i := memory_wf (i_memory i) /\
+                            where  Inv i := MEM (i_memory i) /\
                                             (   not initialised /\ cfg = []
                                              \/ initialised /\ (cfg = [] \/ (legal cfg /\ stable cfg))).
                             The micro steps of a macro step are computed in advance from the configuration
                             at the beginning (create_steps) and applied one after the other, each followed
-                            by stabilisation, exactly as in the model/Python code: run_trans_inv shows that
-                            the steps computed in advance are still accurate when they are applied, because
-                            simultaneously fired transitions work in different regions (indep) and every
-                            transition + its stabilisation only touches its own region (micro_ok,
-                            stab_step_touch).
+                            by stabilisation, exactly as in the model/Python code: TPre / TPre_next /
+                            run_trans_inv show that the steps computed in advance are still accurate when
+                            they are applied, because simultaneously fired transitions work in different
+                            regions (indep) and every transition + its stabilisation only touches its own
+                            region (micro_ok, stab_step_touch).
      C02_run / C02_run_init Inv along any sequence of queue / execute_once operations that return normally
                             (C05Proofs.runs), in particular from init_istate.
+     C02_stabilize_terminates   from a J configuration (wk, empty or containing the root) with MEM memory
+                            stabilize fuel = stabilize fuel' whenever both fuels are >= 2*|states| + 2:
+                            the loop is never cut short.  Measure (stab_step_mu): every inactive non-history
+                            state weighs 2, every inactive history state 1.  (Stated as fuel independence
+                            because emit is arbitrary and could itself return EFuel; corollary
+                            C02_stabilize_no_fuel_error.  The bound is 2|S|+2 rather than the |S|+1 of the
+                            plan: entering an initial history state and replacing it are two steps.)
+     C02_fuel_irrelevant    the same for execute_once from any Inv state: result, error and final state do
+                            not depend on the fuel beyond 2*|states| + 2 -- EFuel is not an outcome.
    For charts accepted by the decidable checker (after the sections):
      wf_chart_b, wf_chart_b_sound : wf_chart_b sc = true -> exists r, WF sc r   (all Section WF hypotheses)
      C02_step_checked, C02_run_checked (headline: from the initial state, after every normally returning
-                            operation the configuration is [] or legal_b /\ no stabilisation step is due)
+                            operation the configuration is [] or legal_b /\ no stabilisation step is due),
+     C02_stabilize_terminates_checked, C02_fuel_irrelevant_checked
    Non-vacuity: Module C02Example -- an 18-state chart with a nested orthogonal state, a shallow and a deep
      history state (the deep one is an initial state), a transition from outside an orthogonal state to a
      state nested in a region of a nested orthogonal state, three transitions on one event in three regions;
      wf_chart_b = true by vm_compute, a chart with a cross-region transition is rejected, a 10-step run of
-     the model is shown, and C02_run_checked is instantiated (c02_example_theorem).
+     the model is shown, and the checked theorems are instantiated (c02_example_theorem, c02_example_fuel).
 
    Hypotheses of Section WF and their justification (DESIGN.md section 2)
    ----------------------------------------------------------------------
@@ -55,7 +69,11 @@
      Hhistory                        WF6: a history state has a compound parent, its default memory is a sibling
      Hcross                          WF7a: no transition crosses between sibling regions of an orthogonal state
      Htarget                         WF7 + WF1: the target of a transition, when present, is not the empty
-                                     name (the code tests `if t.target`-style truthiness in stays_below).
+                                     name (stays_below tests the target for truthiness); forced by
+                                     check_pair_indep
+     Hmemory_nonhist                 WF6: the default memory is not a history state -- used ONLY by
+                                     C02_stabilize_terminates / C02_fuel_irrelevant (two history siblings
+                                     naming each other loop forever, DESIGN.md section 8(4))
    NOT needed: WF7b (history entered from outside its parent) -- it matters for C06, not for legality;
    "a compound state has a non-history child" and "compound states declare an initial state" (a compound
    state without initial state is a legal leaf, as in Spec.legal_b).
@@ -63,14 +81,12 @@
    compute_steps_init from the model itself (sort_transitions fails unless check_pairs = None) together with
    C01_selection (no selected source is an ancestor of another one), see check_pair_indep.
 
-   memory_wf is the part of "every recorded memory is a legal sub-configuration below parent(H)" that
-   legality needs: all remembered states lie strictly below parent(H), are parent-closed relative to it and
-   contain at most one child per compound state.  It is established by record_history whenever the
-   configuration at the beginning of the micro step satisfies the weak invariant (hist_rec_mwf).
-
-   Partial / missing
-   -----------------
-   C02_stabilize_terminates (optional item): see the end of Section WF / the report. *)
+   The memory invariant MEM = memory_wf /\ mnh: every recorded memory of H lies strictly below parent(H),
+   is parent-closed relative to it, contains at most one child per compound state (memory_wf, what legality
+   needs), is non-empty and contains no history state (mnh, what termination needs).  It is established by
+   record_history whenever the configuration at the beginning of the micro step satisfies the weak invariant
+   and contains no history state (hist_rec_mwf, hist_rec_mnh); stab_exits_nohist shows that this is the case
+   for the only stabilisation step that exits a compound state (final child of the root reached). *)
 From Coq Require Import String List Bool ZArith Sorted Permutation Lia.
 From Sismic Require Import Base Chart Interp Spec.
 From SismicProofs Require Import SortLib FrameLib C01Proofs.
@@ -126,6 +142,78 @@ Proof.
   - intros H. inversion H; subst. exists x. split; [left; reflexivity|exact E].
   - intros H. destruct (IH H) as (z & Hz & Hf). exists z. split; [right; exact Hz|exact Hf].
 Qed.
+
+Lemma insert_ne {A} (leb : A -> A -> bool) x l : insert leb x l <> [].
+Proof. destruct l as [|y l]; simpl; [discriminate|]. destruct (leb x y); discriminate. Qed.
+
+Lemma sort_cons_ne {A} (leb : A -> A -> bool) x l : sort leb (x :: l) <> [].
+Proof. simpl. apply insert_ne. Qed.
+
+(* sums of weights over a list of names (termination measure of the stabilisation loop) *)
+Lemma sum_le {A} (f g : A -> nat) L :
+  (forall k, In k L -> f k <= g k) -> list_sum (map f L) <= list_sum (map g L).
+Proof.
+  induction L as [|a L IH]; simpl; intros H; [lia|].
+  pose proof (H a (or_introl eq_refl)). specialize (IH (fun k Hk => H k (or_intror Hk))). lia.
+Qed.
+
+Lemma sum_lt {A} (f g : A -> nat) L x d :
+  (forall k, In k L -> f k <= g k) -> In x L -> f x + d <= g x ->
+  list_sum (map f L) + d <= list_sum (map g L).
+Proof.
+  induction L as [|a L IH]; simpl; intros H Hx Hd; [destruct Hx|].
+  pose proof (H a (or_introl eq_refl)) as Ha.
+  destruct Hx as [->|Hx].
+  - pose proof (sum_le f g L (fun k Hk => H k (or_intror Hk))). lia.
+  - specialize (IH (fun k Hk => H k (or_intror Hk)) Hx Hd). lia.
+Qed.
+
+Lemma sum_le1 (f g : name -> nat) L h :
+  NoDup L -> (forall k, In k L -> k <> h -> f k <= g k) -> f h <= g h + 1 ->
+  list_sum (map f L) <= list_sum (map g L) + 1.
+Proof.
+  induction L as [|a L IH]; simpl; intros Hnd H Hh; [lia|].
+  inversion Hnd as [|? ? Ha Hnd']; subst.
+  destruct (string_dec a h) as [->|Hne'].
+  - assert (list_sum (map f L) <= list_sum (map g L)) as Hle.
+    { apply sum_le. intros k Hk. apply H; [right; exact Hk|]. intros ->. contradiction. }
+    lia.
+  - pose proof (H a (or_introl eq_refl) Hne') as Hle.
+    specialize (IH Hnd' (fun k Hk => H k (or_intror Hk)) Hh). lia.
+Qed.
+
+Lemma sum_swap (f' f : name -> nat) L h x :
+  NoDup L -> In x L -> x <> h -> (forall k, In k L -> k <> h -> f' k <= f k) ->
+  f' h <= f h + 1 -> f' x + 2 <= f x -> list_sum (map f' L) + 1 <= list_sum (map f L).
+Proof.
+  intros Hnd Hx Hxh H Hh H2.
+  set (g := fun k => if string_dec k x then f k - 2 else f k).
+  assert (list_sum (map f' L) <= list_sum (map g L) + 1) as A1.
+  { apply (sum_le1 f' g L h Hnd).
+    - intros k Hk Hkh. unfold g. destruct (string_dec k x) as [->|]; [lia|apply H; assumption].
+    - unfold g. destruct (string_dec h x) as [E|]; [congruence|exact Hh]. }
+  assert (list_sum (map g L) + 2 <= list_sum (map f L)) as A2.
+  { apply (sum_lt g f L x 2); [|exact Hx|].
+    - intros k Hk. unfold g. destruct (string_dec k x); lia.
+    - unfold g. destruct (string_dec x x); [lia|congruence]. }
+  lia.
+Qed.
+
+Lemma In_dedup x : forall l, In x (dedup l) <-> In x l.
+Proof.
+  induction l as [|a l IH]; simpl; [tauto|]. destruct (mem a l) eqn:E.
+  - rewrite IH. split; [auto|]. intros [<-|H]; [apply mem_In, E|exact H].
+  - simpl. rewrite IH. tauto.
+Qed.
+
+Lemma NoDup_dedup : forall l, NoDup (dedup l).
+Proof.
+  induction l as [|a l IH]; simpl; [constructor|]. destruct (mem a l) eqn:E; [exact IH|].
+  constructor; [|exact IH]. rewrite In_dedup. apply mem_false_iff, E.
+Qed.
+
+Lemma dedup_length : forall l, length (dedup l) <= length l.
+Proof. induction l as [|a l IH]; simpl; [lia|]. destruct (mem a l); simpl; lia. Qed.
 
 Section C02.
   Variable ctx : Type.
@@ -440,7 +528,7 @@ Section C02.
   (* what record_history may store for the history child `child` of the compound state p *)
   Definition hist_rec (active : list name) (p child : name) (l : list name) : Prop :=
     exists cs, state_for sc child = Some cs /\
-      ((s_kind cs = KDeep /\ l = sort_names (filter (fun n => mem n (desc p)) active))
+      ((s_kind cs = KDeep /\ l = sort_names (filter (fun n => mem n (desc p)) active) /\ l <> [])
        \/ (s_kind cs = KShallow /\ l = filter (fun n => mem n (kids p)) active /\ exists c, l = [c])).
 
   Definition mem_closed (active : list name) (st : state) (P : list (name * list name) -> Prop) : Prop :=
@@ -493,7 +581,8 @@ Section C02.
         + cbv zeta. destruct (filter (fun n => mem n (desc (s_name st))) active) as [|c l'] eqn:F;
             try (apply pres_fail, keepP_refl).
           apply pres_modify. intros s. apply keepP_memory. apply HP; [exact K|exact Hc|].
-          exists cs. split; [exact Ecs|]. left. split; [exact Kc|]. rewrite F. reflexivity. }
+          exists cs. split; [exact Ecs|]. left. split; [exact Kc|]. rewrite F.
+          split; [reflexivity|apply sort_cons_ne]. }
     apply Hl. apply incl_refl.
   Qed.
 
@@ -958,6 +1047,11 @@ Section C02.
       under R1 (t_source t) -> under R2 tgt -> R1 = R2.
     (* WF7 + WF1: the target of a transition, when present, is a state, hence not the empty name *)
     Hypothesis Htarget : forall t tgt, In t (c_transitions sc) -> t_target t = Some tgt -> tgt <> ""%string.
+    (* WF6 (second half): the default memory of a history state is not a history state.  Used ONLY by the
+       termination result C02_stabilize_terminates at the end of the section. *)
+    Hypothesis Hmemory_nonhist : forall h hs m ms, state_for sc h = Some hs ->
+      is_history (s_kind hs) = true -> s_memory hs = Some m -> state_for sc m = Some ms ->
+      is_history (s_kind ms) = false.
 
     (* ---------------------------------------------------------------- ancestors *)
     Lemma truthy_some (p : name) : p <> ""%string -> truthy (@Some name p) = @Some name p.
@@ -1788,7 +1882,7 @@ Section C02.
 
     Lemma hist_rec_mwf active p child l : wk active -> hist_rec active p child l -> mwf p l.
     Proof.
-      intros (Hnd & Hex & Hcl & Hamo) (cs & Ecs & [[K ->]|[K [E (c & ->)]]]); unfold sort_names.
+      intros (Hnd & Hex & Hcl & Hamo) (cs & Ecs & [[K [-> _]]|[K [E (c & ->)]]]); unfold sort_names.
       - split; [|split].
         + intros x Hx. apply sort_In, filter_In in Hx. destruct Hx as [_ Hx].
           apply mem_In, desc_iff in Hx. exact Hx.
@@ -1816,6 +1910,84 @@ Section C02.
       - eapply Hm; eauto.
     Qed.
 
+    (* no history state in l *)
+    Definition nohist (l : list name) : Prop :=
+      forall x st, In x l -> state_for sc x = Some st -> is_history (s_kind st) = false.
+    (* every recorded memory is non-empty and without history states (needed for termination only) *)
+    Definition mnh (m : list (name * list name)) : Prop :=
+      forall h l, lookup h m = Some l -> l <> [] /\ nohist l.
+    Definition MEM (m : list (name * list name)) : Prop := memory_wf m /\ mnh m.
+
+    Lemma MEM_nil : MEM [].
+    Proof. split; [intros h l p Hl|intros h l Hl]; simpl in Hl; discriminate. Qed.
+
+    Lemma hist_rec_mnh active p child l : nohist active -> hist_rec active p child l -> l <> [] /\ nohist l.
+    Proof.
+      intros Hnh (cs & Ecs & [[K [-> Hne']]|[K [E (c & ->)]]]).
+      - split; [exact Hne'|]. intros x st Hx. unfold sort_names in Hx. apply sort_In, filter_In in Hx.
+        apply Hnh. tauto.
+      - split; [discriminate|]. intros x st Hx. rewrite E in Hx. apply filter_In in Hx. apply Hnh. tauto.
+    Qed.
+
+    Lemma mnh_dset m child l : mnh m -> l <> [] /\ nohist l -> mnh (dset child l m).
+    Proof.
+      intros Hm Hl h l' Hlk. rewrite lookup_dset_eq in Hlk. destruct (str_eqb h child).
+      - inversion Hlk; subst l'. exact Hl.
+      - eapply Hm; eauto.
+    Qed.
+
+    Lemma legal_nohist cfg : legal cfg -> nohist cfg.
+    Proof.
+      intros (_ & _ & Hs) x st Hx Est. destruct (Hs x Hx) as (st' & E' & _ & _ & _ & _ & Hh & _).
+      rewrite Est in E'. inversion E'; subst st'. exact Hh.
+    Qed.
+
+    Lemma states_for_mem : forall l sts, states_for sc l = Some sts ->
+      forall st, In st sts -> In (s_name st) l /\ state_for sc (s_name st) = Some st.
+    Proof.
+      induction l as [|n l IH]; intros sts H st Hst; simpl in H.
+      - inversion H; subst. destruct Hst.
+      - destruct (state_for sc n) as [st0|] eqn:E; [|discriminate].
+        destruct (states_for sc l) as [rr|]; [|discriminate]. inversion H; subst sts.
+        destruct Hst as [<-|Hst].
+        + rewrite (Hnames n st0 E). split; [left; reflexivity|exact E].
+        + destruct (IH rr eq_refl st Hst) as [A B]. split; [right; exact A|exact B].
+    Qed.
+
+    (* a stabilisation step exits a compound state only from a configuration without history states *)
+    Lemma stab_exits_nohist (i : ist) step :
+      css i = Some (inl step) -> wk (i_config i) ->
+      forall x st, In x (ms_exited step) -> state_for sc x = Some st -> s_kind st = KCompound ->
+                   nohist (i_config i).
+    Proof.
+      intros Hcss Hwk x st Hx Est K.
+      apply css_some in Hcss. destruct Hcss as [(n & [Hn Hleaf] & Hs)|(n & Hn & Hs)].
+      - unfold stab_for_leaf in Hs. destruct (state_for sc n) as [ns|] eqn:En; [|discriminate].
+        destruct (s_kind ns) eqn:Kn.
+        + discriminate.
+        + destruct (truthy (s_initial ns)); [|discriminate]. inversion Hs; subst step. destruct Hx.
+        + destruct (kids n); [discriminate|]. inversion Hs; subst step. destruct Hx.
+        + destruct (ostr_eqb (par n) (root sc)) eqn:Eo; [|discriminate].
+          rewrite Hroot in Hs. inversion Hs; subst step. clear Hs.
+          apply ostr_eqb_iff in Eo. rewrite Hroot in Eo.
+          intros y ys Hy Eys.
+          destruct (final_step_all (i_config i) n ns Hwk Hn En Kn Eo y Hy) as [->| ->].
+          * rewrite En in Eys. inversion Eys; subst ys. rewrite Kn. reflexivity.
+          * destruct Hx as [<-|[<-|[]]].
+            -- rewrite En in Est. inversion Est; subst st. congruence.
+            -- rewrite Est in Eys. inversion Eys; subst ys. rewrite K. reflexivity.
+        + exfalso. destruct (lookup n (i_memory i)); [|destruct (s_memory ns); [|discriminate]];
+            inversion Hs; subst step; destruct Hx as [<-|[]]; rewrite En in Est; inversion Est; subst st;
+            congruence.
+        + exfalso. destruct (lookup n (i_memory i)); [|destruct (s_memory ns); [|discriminate]];
+            inversion Hs; subst step; destruct Hx as [<-|[]]; rewrite En in Est; inversion Est; subst st;
+            congruence.
+      - unfold stab_for_orthogonal in Hs. destruct (state_for sc n) as [ns|]; [|discriminate].
+        destruct (s_kind ns); try discriminate.
+        destruct (filter (fun ch => negb (mem ch (i_config i))) (kids n)); [discriminate|].
+        inversion Hs; subst step. destruct Hx.
+    Qed.
+
     (* the effect of a micro step on configuration (as a set) and memory *)
     Lemma apply_step_sets step s s' a :
       apply_step step s = (s', inl a) -> NoDup (i_config (m_i s)) ->
@@ -1824,16 +1996,22 @@ Section C02.
                     (In x (i_config (m_i s)) /\ ~ In x (ms_exited step)) \/ In x (ms_entered step))
       /\ (forall x, In x (ms_entered step) -> state_for sc x <> None)
       /\ i_initialized (m_i s') = i_initialized (m_i s)
-      /\ (wk (i_config (m_i s)) -> memory_wf (i_memory (m_i s)) -> memory_wf (i_memory (m_i s')))
+      /\ (wk (i_config (m_i s)) ->
+          (forall x st, In x (ms_exited step) -> state_for sc x = Some st -> s_kind st = KCompound ->
+                        nohist (i_config (m_i s))) ->
+          MEM (i_memory (m_i s)) -> MEM (i_memory (m_i s')))
       /\ (ms_entered step = [] -> ms_exited step = [] -> i_config (m_i s') = i_config (m_i s)).
     Proof.
-      intros H Hnd. apply (apply_step_inv memory_wf) in H.
+      intros H Hnd. apply (apply_step_inv MEM) in H.
       destruct H as (ent & exi & He & Hx & Hc & Hi & Hm & _).
       destruct (cfg_after_spec (i_config (m_i s)) _ _ ent exi Hnd He Hx) as (N & I & F).
       rewrite Hc. split; [exact N|]. split; [exact I|]. split; [exact F|]. split; [exact Hi|]. split.
-      - intros Hwk Hmem. apply Hm; [|exact Hmem]. intros st Hst child l m K Hch Hrec Pm.
-        apply memory_wf_dset with (p := s_name st); [exact Pm|apply Hpc, Hch|].
-        eapply hist_rec_mwf; eauto.
+      - intros Hwk Hnh Hmem. apply Hm; [|exact Hmem]. intros st Hst child l m K Hch Hrec [Pm1 Pm2].
+        destruct (states_for_mem _ _ Hx st Hst) as [Hin' Est]. specialize (Hnh _ _ Hin' Est K).
+        split.
+        + apply memory_wf_dset with (p := s_name st); [exact Pm1|apply Hpc, Hch|].
+          eapply hist_rec_mwf; eauto.
+        + apply mnh_dset; [exact Pm2|]. eapply hist_rec_mnh; eauto.
       - intros E1 E2. rewrite E1 in He. rewrite E2 in Hx. simpl in He, Hx.
         inversion He; inversion Hx; subst. reflexivity.
     Qed.
@@ -1850,7 +2028,7 @@ Section C02.
             (In x (i_config (m_i s)) /\ ~ under (tlbl (snd it)) x)
             \/ (under x tgt /\ below (tlca (snd it)) x))
       /\ i_initialized (m_i s') = i_initialized (m_i s)
-      /\ (memory_wf (i_memory (m_i s)) -> memory_wf (i_memory (m_i s'))).
+      /\ (nohist (i_config (m_i s)) -> MEM (i_memory (m_i s)) -> MEM (i_memory (m_i s'))).
     Proof.
       intros Hin Ht Hwk Hsrc Hag H. set (t := snd it) in *.
       destruct (apply_step_sets _ _ _ _ H (proj1 Hwk)) as (N & I & F & Hi & Hm & _).
@@ -1872,7 +2050,7 @@ Section C02.
       - intros x Hx. apply I in Hx. destruct Hx as [[Hx _]|Hx]; [|apply F; exact Hx].
         destruct Hwk as (_ & Hex & _). apply Hex, Hx.
       - split; [exact W|]. split; [exact R|]. split; [exact Hchar|]. split; [exact Hi|].
-        intros Hmem. apply Hm; assumption.
+        intros Hnh Hmem. apply Hm; [assumption|intros; exact Hnh|assumption].
     Qed.
 
     (* ---------------------------------------------------------------- locality of stabilisation *)
@@ -2014,12 +2192,12 @@ Section C02.
     (* ---------------------------------------------------------------- the stabilisation loop *)
     Lemma stabilize_inv (K : list name -> Prop) :
       (forall (i : ist) step cfg', css i = Some (inl step) -> wk (i_config i) -> In r (i_config i) ->
-          memory_wf (i_memory i) -> K (i_config i) ->
+          MEM (i_memory i) -> K (i_config i) ->
           (forall x, In x cfg' <-> (In x (i_config i) /\ ~ In x (ms_exited step)) \/ In x (ms_entered step)) ->
           K cfg') ->
       forall fuel s s' steps, stabilize fuel s = (s', inl steps) ->
-        J (i_config (m_i s)) -> memory_wf (i_memory (m_i s)) -> K (i_config (m_i s)) ->
-        J (i_config (m_i s')) /\ memory_wf (i_memory (m_i s')) /\ K (i_config (m_i s'))
+        J (i_config (m_i s)) -> MEM (i_memory (m_i s)) -> K (i_config (m_i s)) ->
+        J (i_config (m_i s')) /\ MEM (i_memory (m_i s')) /\ K (i_config (m_i s'))
         /\ i_initialized (m_i s') = i_initialized (m_i s) /\ css (m_i s') = None.
     Proof.
       intros HK. induction fuel as [|f IH]; intros s s' steps H HJ Hmem Hk; simpl in H; [discriminate|].
@@ -2028,8 +2206,8 @@ Section C02.
         apply bind_ok in H. destruct H as (rr & s2 & H2 & H). inversion H; subst s2. clear H.
         destruct HJ as [Hwk [Hnil|Hr]]; [rewrite (css_nil _ Hnil) in E; discriminate|].
         destruct (apply_step_sets _ _ _ _ H1 (proj1 Hwk)) as (N & I & F & Hi & Hm & _).
-        assert (J (i_config (m_i s1))) as HJ1 by (eapply stab_step_J; eauto).
-        destruct (IH s1 s' rr H2 HJ1 (Hm Hwk Hmem)) as (A & B & C & D & G).
+        assert (J (i_config (m_i s1))) as HJ1 by (eapply stab_step_J; eauto; apply Hmem).
+        destruct (IH s1 s' rr H2 HJ1 (Hm Hwk (stab_exits_nohist _ _ E Hwk) Hmem)) as (A & B & C & D & G).
         { eapply HK; eauto. }
         split; [exact A|]. split; [exact B|]. split; [exact C|]. split; [congruence|exact G].
       - discriminate.
@@ -2047,16 +2225,17 @@ Section C02.
     Lemma micro_ok fuel cfg0 ev it s s1 s2 a ss :
       In (snd it) (c_transitions sc) -> In (t_source (snd it)) cfg0 ->
       wk (i_config (m_i s)) -> In r (i_config (m_i s)) -> stable (i_config (m_i s)) ->
-      memory_wf (i_memory (m_i s)) ->
+      MEM (i_memory (m_i s)) ->
       (forall tgt, t_target (snd it) = Some tgt ->
          forall x, under (tlbl (snd it)) x -> (In x (i_config (m_i s)) <-> In x cfg0)) ->
       apply_step (create_step sc cfg0 ev it) s = (s1, inl a) ->
       stabilize fuel s1 = (s2, inl ss) ->
-      J (i_config (m_i s2)) /\ memory_wf (i_memory (m_i s2)) /\ css (m_i s2) = None
+      J (i_config (m_i s2)) /\ MEM (i_memory (m_i s2)) /\ css (m_i s2) = None
       /\ i_initialized (m_i s2) = i_initialized (m_i s)
       /\ (forall R, region R -> inside R (snd it) -> differs_under R (i_config (m_i s)) (i_config (m_i s2))).
     Proof.
       intros Hin Hsrc Hwk Hr Hst Hmem Hag H1 H2. set (t := snd it) in *.
+      assert (nohist (i_config (m_i s))) as Hnh by (apply legal_nohist, wk_stable_legal; assumption).
       destruct (t_target t) as [tgt|] eqn:Ht.
       - specialize (Hag tgt eq_refl).
         destruct (trans_apply cfg0 ev it tgt s s1 a Hin Ht Hwk Hsrc Hag H1) as (W1 & R1 & Hchar & Hi1 & Hm1).
@@ -2080,9 +2259,9 @@ Section C02.
           as (A & B & C & D & G); try assumption.
         + intros i step cfg' Hcss Hwki Hri Hmi Hk Hin' R HR HI.
           destruct (Hk R HR HI) as [Hd HRc].
-          exact (stab_step_local i step cfg' R (i_config (m_i s)) Hcss Hmi HR Hst Hd HRc Hin').
+          exact (stab_step_local i step cfg' R (i_config (m_i s)) Hcss (proj1 Hmi) HR Hst Hd HRc Hin').
         + split; [exact W1|right; exact R1].
-        + apply Hm1, Hmem.
+        + apply Hm1; assumption.
         + split; [exact A|]. split; [exact B|]. split; [exact G|]. split; [congruence|].
           intros R HR HI. apply C; assumption.
       - destruct (create_step_none cfg0 ev it Ht) as [Ee Ex].
@@ -2090,7 +2269,8 @@ Section C02.
         specialize (Hsame Ee Ex).
         assert (css (m_i s1) = None) as Hc by (apply C02_stable_iff; rewrite Hsame; exact Hst).
         destruct (stabilize_stable fuel s1 s2 ss Hc H2) as [-> _].
-        rewrite Hsame. split; [split; [exact Hwk|right; exact Hr]|]. split; [apply Hm1; assumption|].
+        rewrite Hsame. split; [split; [exact Hwk|right; exact Hr]|].
+        split; [apply Hm1; [assumption|intros; exact Hnh|assumption]|].
         split; [exact Hc|]. split; [exact Hi1|]. intros R _ _ x _. apply iff_refl.
     Qed.
 
@@ -2106,52 +2286,89 @@ Section C02.
       split; assumption.
     Qed.
 
-    Lemma run_trans_inv fuel cfg0 ev : forall ts s s' executed,
-      NoDup ts ->
-      (forall it, In it ts -> In (snd it) (c_transitions sc) /\ In (t_source (snd it)) cfg0) ->
-      (forall a b, In a ts -> In b ts -> a <> b -> indep (snd a) (snd b)) ->
-      wk (i_config (m_i s)) -> In r (i_config (m_i s)) -> stable (i_config (m_i s)) ->
-      memory_wf (i_memory (m_i s)) ->
-      (forall it tgt, In it ts -> t_target (snd it) = Some tgt ->
-         forall x, under (tlbl (snd it)) x -> (In x (i_config (m_i s)) <-> In x cfg0)) ->
-      ts <> [] ->
-      run_steps fuel (create_steps sc cfg0 ev ts) s = (s', inl executed) ->
-      J (i_config (m_i s')) /\ memory_wf (i_memory (m_i s')) /\ css (m_i s') = None
-      /\ i_initialized (m_i s') = i_initialized (m_i s).
+    (* what the remaining transitions ts of a macro step (computed from cfg0) need of the current state *)
+    Definition TPre (cfg0 : list name) (ts : list itrans) (i : ist) : Prop :=
+      NoDup ts
+      /\ (forall it, In it ts -> In (snd it) (c_transitions sc) /\ In (t_source (snd it)) cfg0)
+      /\ (forall a b, In a ts -> In b ts -> a <> b -> indep (snd a) (snd b))
+      /\ wk (i_config i) /\ In r (i_config i) /\ stable (i_config i) /\ MEM (i_memory i)
+      /\ (forall it tgt, In it ts -> t_target (snd it) = Some tgt ->
+            forall x, under (tlbl (snd it)) x -> (In x (i_config i) <-> In x cfg0)).
+
+    (* after the micro step alone: the stabilisation loop starts from a J configuration *)
+    Lemma TPre_apply cfg0 ev it rest s s1 a :
+      TPre cfg0 (it :: rest) (m_i s) ->
+      apply_step (create_step sc cfg0 ev it) s = (s1, inl a) ->
+      J (i_config (m_i s1)) /\ MEM (i_memory (m_i s1)).
     Proof.
-      induction ts as [|it rest IH]; intros s s' executed Hnd Hts Hind Hwk Hr Hst Hmem Hag Hnonempty H;
-        [congruence|].
-      simpl in H.
-      apply bind_ok in H. destruct H as (a & s1 & H1 & H).
-      apply bind_ok in H. destruct H as (ss & s2 & H2 & H).
-      apply bind_ok in H. destruct H as (rr & s3 & H3 & H). inversion H; subst s3. clear H.
+      intros (Hnd & Hts & Hind & Hwk & Hr & Hst & Hmem & Hag) H1.
+      destruct (Hts it (or_introl eq_refl)) as [Hin Hsrc].
+      assert (nohist (i_config (m_i s))) as Hnh by (apply legal_nohist, wk_stable_legal; assumption).
+      destruct (t_target (snd it)) as [tgt|] eqn:Ht.
+      - destruct (trans_apply cfg0 ev it tgt s s1 a Hin Ht Hwk Hsrc) as (W1 & R1 & _ & _ & Hm1);
+          [apply (Hag it tgt); [left; reflexivity|exact Ht]|exact H1|].
+        split; [split; [exact W1|right; exact R1]|apply Hm1; assumption].
+      - destruct (create_step_none cfg0 ev it Ht) as [Ee Ex].
+        destruct (apply_step_sets _ _ _ _ H1 (proj1 Hwk)) as (_ & _ & _ & _ & Hm1 & Hsame).
+        rewrite (Hsame Ee Ex). split; [split; [exact Hwk|right; exact Hr]|].
+        apply Hm1; [assumption|intros; exact Hnh|assumption].
+    Qed.
+
+    (* after the micro step and its stabilisation: ready for the remaining transitions *)
+    Lemma TPre_next fuel cfg0 ev it rest s s1 s2 a ss :
+      TPre cfg0 (it :: rest) (m_i s) ->
+      apply_step (create_step sc cfg0 ev it) s = (s1, inl a) ->
+      stabilize fuel s1 = (s2, inl ss) ->
+      J (i_config (m_i s2)) /\ MEM (i_memory (m_i s2)) /\ css (m_i s2) = None
+      /\ i_initialized (m_i s2) = i_initialized (m_i s)
+      /\ (rest <> [] -> TPre cfg0 rest (m_i s2)).
+    Proof.
+      intros (Hnd & Hts & Hind & Hwk & Hr & Hst & Hmem & Hag) H1 H2.
       destruct (Hts it (or_introl eq_refl)) as [Hin Hsrc].
       destruct (micro_ok fuel cfg0 ev it s s1 s2 a ss Hin Hsrc Hwk Hr Hst Hmem) as (A & B & C & D & L);
         try assumption.
       { intros tgt Ht. apply (Hag it tgt); [left; reflexivity|exact Ht]. }
+      split; [exact A|]. split; [exact B|]. split; [exact C|]. split; [exact D|].
+      intros Hrest. destruct rest as [|b rest']; [congruence|].
+      inversion Hnd as [|? ? Hni Hnd']; subst.
+      assert (forall it', In it' (b :: rest') ->
+                exists R R', region R /\ region R' /\ R <> R' /\ par R = par R'
+                             /\ inside R (snd it) /\ inside R' (snd it')) as Hpart.
+      { intros it' Hit'. apply Hind; [left; reflexivity|right; exact Hit'|].
+        intros ->. contradiction. }
+      split; [exact Hnd'|].
+      split; [intros it' Hit'; apply Hts; right; exact Hit'|].
+      split; [intros x y Hx Hy; apply Hind; right; assumption|].
+      split; [apply A|].
+      split.
+      { destruct (Hpart b (or_introl eq_refl)) as (R & R' & HR & _ & _ & _ & HI & _).
+        apply (L R HR HI r (region_not_root R HR)). exact Hr. }
+      split; [apply C02_stable_iff, C|]. split; [exact B|].
+      intros it' tgt Hit' Ht x Ux.
+      destruct (Hpart it' Hit') as (R & R' & HR & HR' & Hne' & Hpar & HI & HI').
+      pose proof HR' as (O & os & PR' & _).
+      destruct (trans_local R' O (snd it') tgt PR' HI' Ht) as [L1 _].
+      assert (~ under R x) as Hnu.
+      { intros U. apply Hne'. apply (same_parent_chain x R R' O U (L1 x Ux)); congruence. }
+      rewrite (L R HR HI x Hnu). apply (Hag it' tgt); [right; exact Hit'|exact Ht|exact Ux].
+    Qed.
+
+    Lemma run_trans_inv fuel cfg0 ev : forall ts s s' executed,
+      TPre cfg0 ts (m_i s) -> ts <> [] ->
+      run_steps fuel (create_steps sc cfg0 ev ts) s = (s', inl executed) ->
+      J (i_config (m_i s')) /\ MEM (i_memory (m_i s')) /\ css (m_i s') = None
+      /\ i_initialized (m_i s') = i_initialized (m_i s).
+    Proof.
+      induction ts as [|it rest IH]; intros s s' executed Hpre Hnonempty H; [congruence|].
+      simpl in H.
+      apply bind_ok in H. destruct H as (a & s1 & H1 & H).
+      apply bind_ok in H. destruct H as (ss & s2 & H2 & H).
+      apply bind_ok in H. destruct H as (rr & s3 & H3 & H). inversion H; subst s3. clear H.
+      destruct (TPre_next fuel cfg0 ev it rest s s1 s2 a ss Hpre H1 H2) as (A & B & C & D & Hnext).
       destruct rest as [|b rest'].
       - simpl in H3. inversion H3; subst s'. auto.
-      - inversion Hnd as [|? ? Hni Hnd']; subst.
-        assert (forall it', In it' (b :: rest') ->
-                  exists R R', region R /\ region R' /\ R <> R' /\ par R = par R'
-                               /\ inside R (snd it) /\ inside R' (snd it')) as Hpart.
-        { intros it' Hit'. apply Hind; [left; reflexivity|right; exact Hit'|].
-          intros ->. contradiction. }
-        assert (In r (i_config (m_i s2))) as Hr2.
-        { destruct (Hpart b (or_introl eq_refl)) as (R & R' & HR & _ & _ & _ & HI & _).
-          apply (L R HR HI r (region_not_root R HR)). exact Hr. }
-        destruct (IH s2 s' rr) as (A' & B' & C' & D'); try assumption.
-        + intros it' Hit'. apply Hts. right; exact Hit'.
-        + intros x y Hx Hy. apply Hind; right; assumption.
-        + apply A.
-        + apply C02_stable_iff, C.
-        + intros it' tgt Hit' Ht x Ux.
-          destruct (Hpart it' Hit') as (R & R' & HR & HR' & Hne' & Hpar & HI & HI').
-          pose proof HR' as (O & os & PR' & _).
-          destruct (trans_local R' O (snd it') tgt PR' HI' Ht) as [L1 _].
-          assert (~ under R x) as Hnu.
-          { intros U. apply Hne'. apply (same_parent_chain x R R' O U (L1 x Ux)); congruence. }
-          rewrite (L R HR HI x Hnu). apply (Hag it' tgt); [right; exact Hit'|exact Ht|exact Ux].
+      - destruct (IH s2 s' rr) as (A' & B' & C' & D'); try assumption.
+        + apply Hnext. discriminate.
         + discriminate.
         + split; [exact A'|]. split; [exact B'|]. split; [exact C'|]. congruence.
     Qed.
@@ -2315,7 +2532,7 @@ Section C02.
     (* the invariant of the interpreter: the history memory is well formed and the configuration is
        empty before initialisation, empty (final) or legal and stable afterwards *)
     Definition Inv (i : ist) : Prop :=
-      memory_wf (i_memory i)
+      MEM (i_memory i)
       /\ ((i_initialized i = false /\ i_config i = [])
           \/ (i_initialized i = true
               /\ (i_config i = [] \/ (legal (i_config i) /\ stable (i_config i))))).
@@ -2340,7 +2557,7 @@ Section C02.
     Qed.
 
     Lemma J_stable_Inv (i : ist) :
-      J (i_config i) -> css i = None -> memory_wf (i_memory i) -> i_initialized i = true -> Inv i.
+      J (i_config i) -> css i = None -> MEM (i_memory i) -> i_initialized i = true -> Inv i.
     Proof.
       intros [Hwk Hc] Hcss Hmem Hi. split; [exact Hmem|]. right. split; [exact Hi|].
       destruct Hc as [Hc|Hr]; [left; exact Hc|right].
@@ -2360,9 +2577,9 @@ Section C02.
 
     (* the very first step: enter the root, stabilise *)
     Lemma run_root_step fuel s s' executed :
-      i_config (m_i s) = [] -> memory_wf (i_memory (m_i s)) ->
+      i_config (m_i s) = [] -> MEM (i_memory (m_i s)) ->
       run_steps fuel [mkMicro None None [r] [] []] s = (s', inl executed) ->
-      J (i_config (m_i s')) /\ memory_wf (i_memory (m_i s')) /\ css (m_i s') = None
+      J (i_config (m_i s')) /\ MEM (i_memory (m_i s')) /\ css (m_i s') = None
       /\ i_initialized (m_i s') = i_initialized (m_i s).
     Proof.
       intros Hc Hmem H. simpl in H.
@@ -2382,15 +2599,15 @@ Section C02.
       destruct (stabilize_inv (fun _ => True)) with (fuel := fuel) (s := s1) (s' := s') (steps := ss)
         as (A & B & _ & D & G); auto.
       - split; [exact W1|right; apply I'; reflexivity].
-      - apply Hm; [apply wk_nil|exact Hmem].
+      - apply Hm; [apply wk_nil|intros x st []|exact Hmem].
       - split; [exact A|]. split; [exact B|]. split; [exact G|congruence].
     Qed.
 
     (* an event without transition: nothing changes *)
     Lemma run_event_step fuel e s s' executed :
-      wk (i_config (m_i s)) -> memory_wf (i_memory (m_i s)) -> css (m_i s) = None ->
+      wk (i_config (m_i s)) -> MEM (i_memory (m_i s)) -> css (m_i s) = None ->
       run_steps fuel [mkMicro (Some e) None [] [] []] s = (s', inl executed) ->
-      i_config (m_i s') = i_config (m_i s) /\ memory_wf (i_memory (m_i s'))
+      i_config (m_i s') = i_config (m_i s) /\ MEM (i_memory (m_i s'))
       /\ i_initialized (m_i s') = i_initialized (m_i s).
     Proof.
       intros Hwk Hmem Hcss H. simpl in H.
@@ -2403,13 +2620,13 @@ Section C02.
       assert (css (m_i s1) = None) as Hc1.
       { apply C02_stable_iff. rewrite Hsame. apply C02_stable_iff, Hcss. }
       destruct (stabilize_stable fuel s1 s' ss Hc1 H2) as [-> _].
-      split; [exact Hsame|]. split; [apply Hm; assumption|exact Hi].
+      split; [exact Hsame|]. split; [apply Hm; [assumption|intros x st []|assumption]|exact Hi].
     Qed.
 
     Lemma step_initialized fuel steps (s1 s2 s3 : mst) res :
       i_initialized (m_i s1) = true -> compute_steps s1 = (s2, inl steps) ->
       macro_part ctx X exec_code eval_code emit sc fuel steps s2 = (s3, inl res) ->
-      memory_wf (i_memory (m_i s1)) ->
+      MEM (i_memory (m_i s1)) ->
       (i_config (m_i s1) = [] \/ (legal (i_config (m_i s1)) /\ stable (i_config (m_i s1)))) ->
       Inv (m_i s3).
     Proof.
@@ -2435,8 +2652,8 @@ Section C02.
           destruct (Hfacts it (or_introl eq_refl)) as [_ Hsrc]. rewrite Hc in Hsrc. destruct Hsrc. }
         destruct (legal_wk _ Hl) as [_ Hr].
         destruct (run_trans_inv fuel (i_config (m_i s1)) ev ts s4 s3 executed) as (A & B & C & D);
-          try assumption; try (rewrite S1; assumption); try (rewrite S3; assumption).
-        + intros it tgt _ _ x _. rewrite S1. apply iff_refl.
+          try assumption.
+        + unfold TPre. rewrite S1, S3. repeat (split; [assumption|]). intros it tgt _ _ x _. apply iff_refl.
         + apply J_stable_Inv; try assumption. congruence.
     Qed.
 
@@ -2467,7 +2684,7 @@ Section C02.
 
     Lemma Inv_init id now ignore (c0 : ctx) : Inv (init_istate id now ignore c0).
     Proof.
-      split; [|left; split; reflexivity]. intros h l p Hl. simpl in Hl. discriminate.
+      split; [apply MEM_nil|left; split; reflexivity].
     Qed.
 
     (* Inv is preserved along any sequence of queue / execute_once calls that return normally
@@ -2485,6 +2702,292 @@ Section C02.
       C05Proofs.runs ctx X exec_code eval_code emit sc ops (mkM (init_istate id now ignore c0) x tr) ms s' ->
       Inv (m_i s').
     Proof. intros H. eapply C02_run; [exact H|]. apply Inv_init. Qed.
+
+    (* ================================================================ 4. the stabilisation loop terminates *)
+    (* measure: every inactive non-history state weighs 2, every inactive history state 1 *)
+    Definition keys : list name := dedup (map fst (c_states sc)).
+    Definition histb (k : name) : bool :=
+      match state_for sc k with Some st => is_history (s_kind st) | None => false end.
+    Definition wt (cfg : list name) (k : name) : nat :=
+      if mem k cfg then 0 else if histb k then 1 else 2.
+    Definition mu (cfg : list name) : nat := list_sum (map (wt cfg) keys).
+
+    Lemma keys_In k : state_for sc k <> None -> In k keys.
+    Proof.
+      intros H. unfold keys. apply In_dedup. unfold state_for in H.
+      destruct (lookup k (c_states sc)) eqn:E; [|congruence]. eapply lookup_In_keys; eauto.
+    Qed.
+
+    Lemma mu_bound cfg : mu cfg <= 2 * length (c_states sc).
+    Proof.
+      unfold mu. assert (forall L, list_sum (map (wt cfg) L) <= 2 * length L) as H.
+      { induction L as [|a L IH]; simpl; [lia|]. unfold wt at 1.
+        destruct (mem a cfg); [lia|]. destruct (histb a); lia. }
+      specialize (H keys). unfold keys in *.
+      pose proof (dedup_length (map fst (c_states sc))) as H0. rewrite map_length in H0. lia.
+    Qed.
+
+    Lemma wt_mono cfg cfg' k : (In k cfg -> In k cfg') -> wt cfg' k <= wt cfg k.
+    Proof.
+      intros H. unfold wt. destruct (mem k cfg) eqn:E.
+      - apply mem_In in E. apply H, mem_In in E. rewrite E. lia.
+      - destruct (mem k cfg'); destruct (histb k); lia.
+    Qed.
+
+    Lemma stab_leaf_history_nh m n st step :
+      state_for sc n = Some st -> is_history (s_kind st) = true -> mnh m ->
+      stab_for_leaf sc m n = Some (inl step) ->
+      (exists x, In x (ms_entered step)) /\ nohist (ms_entered step).
+    Proof.
+      intros Est Hh Hm Hs. unfold stab_for_leaf in Hs. rewrite Est in Hs.
+      assert (forall m0 sx, s_memory st = Some m0 -> state_for sc m0 = Some sx ->
+                            is_history (s_kind sx) = false) as Hdef.
+      { intros m0 sx Em Ex. exact (Hmemory_nonhist n st m0 sx Est Hh Em Ex). }
+      destruct (s_kind st); try discriminate Hh;
+        (destruct (lookup n m) as [l|] eqn:El;
+         [ inversion Hs; subst step; destruct (Hm n l El) as [Hne' Hnh]; cbn [ms_entered]; split;
+           [ destruct l as [|y l']; [congruence|]; exists y; apply sort_In; left; reflexivity
+           | intros x sx Hx; apply sort_In in Hx; eapply Hnh; eauto ]
+         | destruct (s_memory st) as [m0|] eqn:Em; [|discriminate]; inversion Hs; subst step;
+           cbn [ms_entered]; split;
+           [ exists m0; left; reflexivity
+           | intros x sx [<-|[]] Ex; exact (Hdef m0 sx eq_refl Ex) ] ]).
+    Qed.
+
+    (* every stabilisation step but the last one (final state reached) decreases the measure *)
+    Lemma stab_step_mu (i : ist) step cfg' :
+      css i = Some (inl step) -> wk (i_config i) -> MEM (i_memory i) ->
+      (forall x, In x (ms_entered step) -> state_for sc x <> None) ->
+      (forall x, In x cfg' <-> (In x (i_config i) /\ ~ In x (ms_exited step)) \/ In x (ms_entered step)) ->
+      cfg' = [] \/ mu cfg' < mu (i_config i).
+    Proof.
+      intros Hcss Hwk Hmem Hent Hin.
+      assert (forall x, ms_exited step = [] -> In x (ms_entered step) -> ~ In x (i_config i) ->
+                        mu cfg' < mu (i_config i)) as Henter.
+      { intros x Hex Hx Hnx. unfold mu.
+        assert (list_sum (map (wt cfg') keys) + 1 <= list_sum (map (wt (i_config i)) keys)); [|lia].
+        apply (sum_lt (wt cfg') (wt (i_config i)) keys x 1).
+        - intros k _. apply wt_mono. intros Hk. apply Hin. left. split; [exact Hk|rewrite Hex; intros []].
+        - apply keys_In, Hent, Hx.
+        - unfold wt. assert (mem x cfg' = true) as E1 by (apply mem_In, Hin; right; exact Hx).
+          rewrite E1. apply mem_false_iff in Hnx. rewrite Hnx. destruct (histb x); lia. }
+      pose proof Hcss as Hcss0.
+      apply css_some in Hcss. destruct Hcss as [(n & [Hn Hleaf] & Hs)|(n & Hn & Hs)].
+      - destruct (state_for sc n) as [st|] eqn:Est;
+          [|unfold stab_for_leaf in Hs; rewrite Est in Hs; discriminate].
+        destruct (is_history (s_kind st)) eqn:Hh.
+        { right.
+          destruct (stab_leaf_history _ n st step Est Hh (proj1 Hmem) Hs)
+            as (p & ps & l & Pn & Eps & Kps & Hl & Hx & He).
+          destruct (stab_leaf_history_nh _ n st step Est Hh (proj2 Hmem) Hs) as [(x & Hxe) Hnh].
+          assert (kids n = []) as Hkn.
+          { apply (no_kids_of_kind n st Est); intros K; rewrite K in Hh; discriminate. }
+          destruct (state_for sc x) as [sx|] eqn:Esx; [|exfalso; exact (Hent x Hxe Esx)].
+          pose proof (Hnh x sx Hxe Esx) as Hxnh.
+          assert (~ In x (i_config i)) as Hnx.
+          { intros Hxc. destruct Hwk as (_ & _ & Hcl & Hamo). destruct Hl as (M1 & _ & _).
+            pose proof (M1 x (proj1 (He x) Hxe)) as Hpx.
+            destruct (child_toward p x Hpx) as (k & Pk & Uk).
+            assert (In k (i_config i)) as Hkc by (exact (pclosed_under _ k x Hcl Hxc Uk)).
+            assert (k = n) as -> by (exact (Hamo p ps k n Eps Kps Pk Pn Hkc Hn)).
+            destruct Uk as [E|Uk]; [|exact (no_kids_no_desc n x Hkn Uk)].
+            subst x. rewrite Est in Esx. inversion Esx; subst sx. congruence. }
+          assert (x <> n) as Hxn by (intros ->; contradiction).
+          unfold mu.
+          assert (list_sum (map (wt cfg') keys) + 1 <= list_sum (map (wt (i_config i)) keys)); [|lia].
+          apply (sum_swap (wt cfg') (wt (i_config i)) keys n x).
+          - apply NoDup_dedup.
+          - apply keys_In. rewrite Esx. discriminate.
+          - exact Hxn.
+          - intros k _ Hkn'. apply wt_mono. intros Hk. apply Hin. left. split; [exact Hk|].
+            rewrite Hx. intros [E|[]]. congruence.
+          - unfold wt. assert (histb n = true) as Hb by (unfold histb; rewrite Est; exact Hh).
+            rewrite Hb. destruct (mem n cfg'); destruct (mem n (i_config i)); lia.
+          - unfold wt. assert (mem x cfg' = true) as E1 by (apply mem_In, Hin; right; exact Hxe).
+            rewrite E1. apply mem_false_iff in Hnx. rewrite Hnx.
+            assert (histb x = false) as Hb by (unfold histb; rewrite Esx; exact Hxnh).
+            rewrite Hb. lia. }
+        unfold stab_for_leaf in Hs. rewrite Est in Hs. destruct (s_kind st) eqn:K; try discriminate.
+        + destruct (truthy (s_initial st)) as [i0|] eqn:Ei; [|discriminate].
+          inversion Hs; subst step. right. apply (Henter i0 eq_refl (or_introl eq_refl)).
+          intros Hc. apply (Hleaf i0); [|exact Hc]. apply desc_iff, anc_par. eapply Hinitial; eauto.
+        + destruct (kids n) as [|c l] eqn:Ek; [discriminate|].
+          inversion Hs; subst step. right. apply (Henter c eq_refl).
+          * cbn [ms_entered]. change (insert str_leb c (sort_names l)) with (sort str_leb (c :: l)).
+            apply sort_In. left; reflexivity.
+          * intros Hc. apply (Hleaf c); [|exact Hc]. apply kids_desc. rewrite Ek. left; reflexivity.
+        + left. destruct (ostr_eqb (par n) (root sc)) eqn:Eo; [|discriminate].
+          rewrite Hroot in Hs. inversion Hs; subst step. clear Hs. cbn [ms_entered ms_exited] in *.
+          apply ostr_eqb_iff in Eo. rewrite Hroot in Eo.
+          apply nodup_empty. intros x Hx. apply Hin in Hx. destruct Hx as [[Hx Hne']|[]].
+          destruct (final_step_all (i_config i) n st Hwk Hn Est K Eo x Hx) as [->| ->];
+            apply Hne'; [left|right; left]; reflexivity.
+      - unfold stab_for_orthogonal in Hs. destruct (state_for sc n) as [st|] eqn:Est; [|discriminate].
+        destruct (s_kind st) eqn:K; try discriminate.
+        destruct (filter (fun ch => negb (mem ch (i_config i))) (kids n)) as [|c l] eqn:Ef; [discriminate|].
+        inversion Hs; subst step. right. apply (Henter c eq_refl).
+        + cbn [ms_entered]. change (insert str_leb c (sort_names l)) with (sort str_leb (c :: l)).
+          apply sort_In. left; reflexivity.
+        + assert (In c (filter (fun ch => negb (mem ch (i_config i))) (kids n))) as Hc
+            by (rewrite Ef; left; reflexivity).
+          apply filter_In in Hc. destruct Hc as [_ Hc]. apply negb_true_iff, mem_false_iff in Hc. exact Hc.
+    Qed.
+
+    Lemma bind_cong_l {A B} (m1 m2 : M ctx X A) (k : A -> M ctx X B) s :
+      m1 s = m2 s -> bind m1 k s = bind m2 k s.
+    Proof. intros H. unfold Interp.bind. rewrite H. reflexivity. Qed.
+
+    Lemma bind_cong_r {A B} (m : M ctx X A) (k1 k2 : A -> M ctx X B) s :
+      (forall a s1, m s = (s1, inl a) -> k1 a s1 = k2 a s1) -> bind m k1 s = bind m k2 s.
+    Proof.
+      intros H. unfold Interp.bind. destruct (m s) as [s1 [a|e]] eqn:E; [apply H; reflexivity|reflexivity].
+    Qed.
+
+    (* beyond mu + 2 the fuel of the loop is irrelevant: the loop is never cut short *)
+    Lemma stabilize_fuel_indep : forall f1 f2 s,
+      J (i_config (m_i s)) -> MEM (i_memory (m_i s)) ->
+      mu (i_config (m_i s)) + 1 < f1 -> mu (i_config (m_i s)) + 1 < f2 ->
+      stabilize f1 s = stabilize f2 s.
+    Proof.
+      induction f1 as [|f1 IH]; intros f2 s HJ Hmem H1 H2; [lia|]. destruct f2 as [|f2]; [lia|].
+      simpl. rewrite !bind_get. destruct (css (m_i s)) as [[step|e]|] eqn:E; try reflexivity.
+      apply bind_cong_r. intros a s1 Ea.
+      destruct HJ as [Hwk [Hnil|Hr]]; [rewrite (css_nil _ Hnil) in E; discriminate|].
+      destruct (apply_step_sets _ _ _ _ Ea (proj1 Hwk)) as (N & I & F & Hi & Hm & _).
+      assert (J (i_config (m_i s1))) as HJ1 by (eapply stab_step_J; eauto; apply Hmem).
+      assert (MEM (i_memory (m_i s1))) as Hmem1.
+      { apply Hm; [exact Hwk|exact (stab_exits_nohist _ _ E Hwk)|exact Hmem]. }
+      apply bind_cong_l.
+      destruct (stab_step_mu (m_i s) step (i_config (m_i s1)) E Hwk Hmem F I) as [Hnil|Hlt].
+      - assert (forall f, 0 < f -> stabilize f s1 = (s1, inl [])) as Hstop.
+        { intros [|f] Hf; [lia|]. simpl. rewrite bind_get. rewrite (css_nil _ Hnil). reflexivity. }
+        rewrite (Hstop f1), (Hstop f2) by lia. reflexivity.
+      - apply IH; try assumption; lia.
+    Qed.
+
+    Theorem C02_stabilize_terminates fuel fuel' s :
+      J (i_config (m_i s)) -> MEM (i_memory (m_i s)) ->
+      2 * length (c_states sc) + 2 <= fuel -> 2 * length (c_states sc) + 2 <= fuel' ->
+      stabilize fuel s = stabilize fuel' s.
+    Proof.
+      intros HJ Hmem H1 H2. pose proof (mu_bound (i_config (m_i s))) as Hb.
+      apply stabilize_fuel_indep; try assumption; lia.
+    Qed.
+
+    Lemma Inv_J (i : ist) : Inv i -> J (i_config i) /\ MEM (i_memory i).
+    Proof.
+      intros [Hmem Hcase]. split; [|exact Hmem].
+      destruct Hcase as [[_ Hc]|[_ [Hc|[Hl _]]]].
+      - rewrite Hc. split; [apply wk_nil|left; reflexivity].
+      - rewrite Hc. split; [apply wk_nil|left; reflexivity].
+      - destruct (legal_wk _ Hl) as [W R]. split; [exact W|right; exact R].
+    Qed.
+
+    (* in particular: an EFuel outcome with enough fuel is not due to the fuel (it can only have been
+       raised by a listener, emit is arbitrary) -- it is returned for every larger fuel as well *)
+    Corollary C02_stabilize_no_fuel_error fuel s s' :
+      J (i_config (m_i s)) -> MEM (i_memory (m_i s)) -> 2 * length (c_states sc) + 2 <= fuel ->
+      stabilize fuel s = (s', inr EFuel) ->
+      forall fuel', fuel <= fuel' -> stabilize fuel' s = (s', inr EFuel).
+    Proof.
+      intros HJ Hmem H1 H fuel' Hle. rewrite <- H. symmetry.
+      apply C02_stabilize_terminates; try assumption; lia.
+    Qed.
+
+    (* ---------------------------------------------------------------- the fuel of execute_once is irrelevant *)
+    Definition enough (f : nat) : Prop := 2 * length (c_states sc) + 2 <= f.
+
+    Lemma run_trans_fuel f1 f2 cfg0 ev : enough f1 -> enough f2 -> forall ts s,
+      TPre cfg0 ts (m_i s) ->
+      run_steps f1 (create_steps sc cfg0 ev ts) s = run_steps f2 (create_steps sc cfg0 ev ts) s.
+    Proof.
+      intros E1 E2. induction ts as [|it rest IH]; intros s Hpre; [reflexivity|].
+      simpl. apply bind_cong_r. intros a s1 H1.
+      destruct (TPre_apply cfg0 ev it rest s s1 a Hpre H1) as [HJ1 HM1].
+      etransitivity; [apply bind_cong_l; exact (C02_stabilize_terminates f1 f2 s1 HJ1 HM1 E1 E2)|].
+      apply bind_cong_r. intros ss s2 H2.
+      destruct (TPre_next f2 cfg0 ev it rest s s1 s2 a ss Hpre H1 H2) as (_ & _ & _ & _ & Hnext).
+      apply bind_cong_l. destruct rest as [|b rest']; [reflexivity|]. apply IH. apply Hnext. discriminate.
+    Qed.
+
+    Lemma run_one_fuel f1 f2 st s : enough f1 -> enough f2 ->
+      (forall s1 a, apply_step st s = (s1, inl a) -> J (i_config (m_i s1)) /\ MEM (i_memory (m_i s1))) ->
+      run_steps f1 [st] s = run_steps f2 [st] s.
+    Proof.
+      intros E1 E2 H. simpl. apply bind_cong_r. intros a s1 H1. destruct (H s1 a H1) as [HJ HM].
+      apply bind_cong_l. exact (C02_stabilize_terminates f1 f2 s1 HJ HM E1 E2).
+    Qed.
+
+    Lemma root_apply_J s s1 a :
+      i_config (m_i s) = [] -> MEM (i_memory (m_i s)) ->
+      apply_step (mkMicro None None [r] [] []) s = (s1, inl a) ->
+      J (i_config (m_i s1)) /\ MEM (i_memory (m_i s1)).
+    Proof.
+      intros Hc Hmem H1.
+      assert (NoDup (i_config (m_i s))) as Hnd0 by (rewrite Hc; constructor).
+      destruct (apply_step_sets _ _ _ _ H1 Hnd0) as (N & I & F & Hi & Hm & _).
+      cbn [ms_entered ms_exited] in I, F. rewrite Hc in I, Hm.
+      assert (forall x, In x (i_config (m_i s1)) <-> x = r) as I'.
+      { intros x. rewrite I. simpl. split; [intros [[[] _]|[E|[]]]; auto|intros ->; right; left; reflexivity]. }
+      split; [|apply Hm; [apply wk_nil|intros x st []|exact Hmem]].
+      split; [|right; apply I'; reflexivity].
+      split; [exact N|]. split; [intros x Hx; apply F; apply I' in Hx; left; auto|]. split.
+      - intros x q Hx Hq. apply I' in Hx. subst x. congruence.
+      - intros n st c1 c2 _ _ _ _ X1 X2. apply I' in X1. apply I' in X2. congruence.
+    Qed.
+
+    Lemma event_apply_J e s s1 a :
+      J (i_config (m_i s)) -> MEM (i_memory (m_i s)) ->
+      apply_step (mkMicro (Some e) None [] [] []) s = (s1, inl a) ->
+      J (i_config (m_i s1)) /\ MEM (i_memory (m_i s1)).
+    Proof.
+      intros HJ Hmem H1.
+      destruct (apply_step_sets _ _ _ _ H1 (proj1 (proj1 HJ))) as (_ & _ & _ & _ & Hm & Hsame).
+      rewrite (Hsame eq_refl eq_refl). split; [exact HJ|].
+      apply Hm; [exact (proj1 HJ)|intros x st []|exact Hmem].
+    Qed.
+
+    (* started in a state satisfying Inv, execute_once never runs out of fuel: its outcome (result or
+       error, and the whole final state) does not depend on the fuel beyond 2 * |states| + 2 *)
+    Theorem C02_fuel_irrelevant f1 f2 now s :
+      Inv (m_i s) -> enough f1 -> enough f2 -> execute_once f1 now s = execute_once f2 now s.
+    Proof.
+      intros [Hmem Hcase] E1 E2. rewrite !execute_once_eq.
+      apply bind_cong_r. intros u s0 H0. unfold Interp.modify in H0. inversion H0; subst s0 u. clear H0.
+      unfold execute_once_tail.
+      apply bind_cong_r. intros u s1 H1. apply raise_meta_footprint in H1. simpl in H1.
+      assert (i_config (m_i s1) = i_config (m_i s) /\ i_memory (m_i s1) = i_memory (m_i s)
+              /\ i_initialized (m_i s1) = i_initialized (m_i s)) as (C1 & C2 & C3).
+      { rewrite H1. simpl. auto. }
+      apply bind_cong_r. intros steps s2 H2.
+      apply bind_cong_l. unfold macro_part. destruct steps as [|first rest] eqn:Esteps; [reflexivity|].
+      rewrite <- Esteps in *.
+      apply bind_cong_r. intros u4 s4 H4.
+      apply (keepP_consume_part (eq (i_memory (m_i s2)))) in H4. apply keepP_same3 in H4.
+      destruct H4 as (S1 & S2 & S3).
+      apply bind_cong_l.
+      destruct Hcase as [[Hi Hc]|[Hi Hcase]].
+      - rewrite <- C3 in Hi. destruct (compute_steps_uninit s1 s2 steps Hi H2) as (-> & D1 & D2 & D3).
+        apply run_one_fuel; try assumption. intros s5 a H5.
+        apply (root_apply_J s4 s5 a); [congruence| |exact H5]. rewrite S3, D2, C2. exact Hmem.
+      - rewrite <- C3 in Hi. destruct (compute_steps_init s1 s2 steps Hi H2) as (Hm2 & Hsteps).
+        rewrite Hm2 in S1, S3.
+        assert (J (i_config (m_i s4))) as HJ4.
+        { rewrite S1, C1. destruct Hcase as [Hc|[Hl _]].
+          - rewrite Hc. split; [apply wk_nil|left; reflexivity].
+          - destruct (legal_wk _ Hl) as [W R]. split; [exact W|right; exact R]. }
+        assert (MEM (i_memory (m_i s4))) as HM4 by (rewrite S3, C2; exact Hmem).
+        destruct Hsteps as [E|[(e & ->)|(ev & ts & Hts & -> & Hnd & Hfacts & Hind)]].
+        + rewrite E in Esteps. discriminate.
+        + apply run_one_fuel; try assumption. intros s5 a H5. exact (event_apply_J e s4 s5 a HJ4 HM4 H5).
+        + destruct Hcase as [Hc|[Hl Hs]].
+          { exfalso. destruct ts as [|it ts]; [congruence|].
+            destruct (Hfacts it (or_introl eq_refl)) as [_ Hsrc]. rewrite C1, Hc in Hsrc. destruct Hsrc. }
+          apply run_trans_fuel; try assumption.
+          destruct (legal_wk _ Hl) as [W R].
+          unfold TPre. rewrite S1, S3, C1, C2. rewrite C1 in Hfacts.
+          repeat (split; [assumption|]). intros it tgt _ _ x _. apply iff_refl.
+    Qed.
 
   End WF.
 
@@ -2515,7 +3018,9 @@ Definition WF (sc : chart) (r : name) : Prop :=
         state_for sc O = Some os -> s_kind os = KOrthogonal ->
         parent_for sc R1 = Some O -> parent_for sc R2 = Some O ->
         under sc R1 (t_source t) -> under sc R2 tgt -> R1 = R2)
-  /\ (forall t tgt, In t (c_transitions sc) -> t_target t = Some tgt -> tgt <> ""%string).
+  /\ (forall t tgt, In t (c_transitions sc) -> t_target t = Some tgt -> tgt <> ""%string)
+  /\ (forall h hs m ms, state_for sc h = Some hs -> is_history (s_kind hs) = true ->
+        s_memory hs = Some m -> state_for sc m = Some ms -> is_history (s_kind ms) = false).
 
 Lemma lookup_In {V} (k : name) (d : list (name * V)) v : lookup k d = Some v -> In (k, v) d.
 Proof.
@@ -2649,6 +3154,10 @@ Definition st_history_b (sc : chart) (ns : name * state) : bool :=
                 | Some ps => kind_eqb (s_kind ps) KCompound
                              && match s_memory (snd ns) with
                                 | Some m => ostr_eqb (parent_for sc m) (Some p)
+                                            && match state_for sc m with
+                                               | Some ms => negb (is_history (s_kind ms))
+                                               | None => true
+                                               end
                                 | None => true
                                 end
                 | None => false
@@ -2706,7 +3215,20 @@ Proof.
   apply andb_true_iff in D. destruct D as [D1 D2]. exists p, ps.
   split; [reflexivity|]. split; [exact Ep|]. split.
   - destruct (s_kind ps); try discriminate; reflexivity.
-  - intros m Hm. rewrite Hm in D2. apply ostr_eqb_iff, D2.
+  - intros m Hm. rewrite Hm in D2. apply andb_true_iff in D2. apply ostr_eqb_iff, D2.
+Qed.
+
+Lemma chk_memory_sound sc : chk_states sc = true ->
+  forall h hs m ms, state_for sc h = Some hs -> is_history (s_kind hs) = true ->
+    s_memory hs = Some m -> state_for sc m = Some ms -> is_history (s_kind ms) = false.
+Proof.
+  intros H h hs m ms Hs Hh Hm Ems. destruct (chk_states_at sc h hs H Hs) as (_ & _ & _ & D).
+  unfold st_history_b in D. simpl in D. rewrite Hh in D.
+  destruct (parent_for sc h) as [p|]; [|discriminate].
+  destruct (state_for sc p) as [ps|] eqn:Ep; [|discriminate].
+  apply andb_true_iff in D. destruct D as [_ D2]. rewrite Hm in D2.
+  apply andb_true_iff in D2. destruct D2 as [_ D3]. rewrite Ems in D3.
+  apply negb_true_iff, D3.
 Qed.
 
 (* WF7 *)
@@ -2771,7 +3293,7 @@ Proof.
   split; [apply chk_one_root_sound; assumption|]. split; [apply chk_composite_sound; assumption|].
   split; [apply chk_initial_sound; assumption|]. split; [apply chk_region_sound; assumption|].
   split; [apply chk_history_sound; assumption|]. split; [apply chk_cross_sound; assumption|].
-  apply chk_target_sound; assumption.
+  split; [apply chk_target_sound; assumption|]. apply chk_memory_sound; assumption.
 Qed.
 
 (* ================================================================== the main theorems for checked charts *)
@@ -2789,7 +3311,7 @@ Section Checked.
       execute_once ctx X exec_code eval_code emit sc fuel now s = (s', inl res) ->
       Inv ctx sc (m_i s').
   Proof.
-    intros (H1 & H2 & H3 & H4 & H5 & H6 & H7 & H8 & H9 & H10 & H11 & H12 & H13 & H14 & H15).
+    intros (H1 & H2 & H3 & H4 & H5 & H6 & H7 & H8 & H9 & H10 & H11 & H12 & H13 & H14 & H15 & H16).
     exact (C02_step ctx X exec_code eval_code emit sc r H1 H2 H3 H4 H5 H6 H7 H8 H9 H10 H11 H12 H13 H14 H15).
   Qed.
 
@@ -2798,7 +3320,7 @@ Section Checked.
       C05Proofs.runs ctx X exec_code eval_code emit sc ops s ms s' ->
       Inv ctx sc (m_i s) -> Inv ctx sc (m_i s').
   Proof.
-    intros (H1 & H2 & H3 & H4 & H5 & H6 & H7 & H8 & H9 & H10 & H11 & H12 & H13 & H14 & H15).
+    intros (H1 & H2 & H3 & H4 & H5 & H6 & H7 & H8 & H9 & H10 & H11 & H12 & H13 & H14 & H15 & H16).
     exact (C02_run ctx X exec_code eval_code emit sc r H1 H2 H3 H4 H5 H6 H7 H8 H9 H10 H11 H12 H13 H14 H15).
   Qed.
 
@@ -2815,10 +3337,36 @@ Section Checked.
     intros Hwf ops id now ignore c0 x tr ms s' Hrun.
     destruct (wf_chart_b_sound sc Hwf) as (r & HWF).
     assert (Inv ctx sc (m_i s')) as [_ HI].
-    { eapply (C02_run_wf r HWF); [exact Hrun|].
-      split; [|left; split; reflexivity]. intros h l p Hl. simpl in Hl. discriminate. }
+    { eapply (C02_run_wf r HWF); [exact Hrun|]. apply Inv_init. }
     destruct HI as [[_ Hc]|[Hi [Hc|[Hl Hs]]]]; [left; exact Hc|left; exact Hc|right].
     split; [exact Hi|]. split; [apply C02_legal_b_sound, Hl|apply C02_stable_iff, Hs].
+  Qed.
+
+  (* the stabilisation loop started in a state satisfying Inv never runs out of fuel *)
+  Theorem C02_stabilize_terminates_checked : wf_chart_b sc = true ->
+    forall fuel fuel' (s : mstate ctx X),
+      Inv ctx sc (m_i s) ->
+      2 * length (c_states sc) + 2 <= fuel -> 2 * length (c_states sc) + 2 <= fuel' ->
+      stabilize ctx X exec_code eval_code emit sc fuel s = stabilize ctx X exec_code eval_code emit sc fuel' s.
+  Proof.
+    intros Hwf fuel fuel' s HI B1 B2. destruct (wf_chart_b_sound sc Hwf) as (r & HWF).
+    destruct HWF as (H1 & H2 & H3 & H4 & H5 & H6 & H7 & H8 & H9 & H10 & H11 & H12 & H13 & H14 & H15 & H16).
+    assert (J sc r (i_config (m_i s)) /\ MEM sc (i_memory (m_i s))) as [HJ HM].
+    { eapply Inv_J; eassumption. }
+    eapply C02_stabilize_terminates; eassumption.
+  Qed.
+
+  (* neither does execute_once: the fuel parameters of the model are immaterial *)
+  Theorem C02_fuel_irrelevant_checked : wf_chart_b sc = true ->
+    forall f1 f2 now (s : mstate ctx X),
+      Inv ctx sc (m_i s) ->
+      2 * length (c_states sc) + 2 <= f1 -> 2 * length (c_states sc) + 2 <= f2 ->
+      execute_once ctx X exec_code eval_code emit sc f1 now s
+      = execute_once ctx X exec_code eval_code emit sc f2 now s.
+  Proof.
+    intros Hwf f1 f2 now s HI B1 B2. destruct (wf_chart_b_sound sc Hwf) as (r & HWF).
+    destruct HWF as (H1 & H2 & H3 & H4 & H5 & H6 & H7 & H8 & H9 & H10 & H11 & H12 & H13 & H14 & H15 & H16).
+    eapply C02_fuel_irrelevant; eassumption.
   Qed.
 
   Theorem C02_step_checked : wf_chart_b sc = true ->
@@ -2923,6 +3471,13 @@ Module C02Example.
       \/ (i_initialized (m_i s') = true /\ legal_b c02_chart (i_config (m_i s')) = true
           /\ create_stabilization_step unit c02_chart (m_i s') = None).
   Proof. intros ops ms s'. apply C02_run_checked. exact c02_chart_wf. Qed.
+
+  (* 18 states: from fuel 38 on the fuel is immaterial (the run above used 30: already more than needed) *)
+  Example c02_example_fuel :
+    forall f1 f2 now s, Inv unit c02_chart (m_i s) -> 38 <= f1 -> 38 <= f2 ->
+      execute_once unit unit ex_exec ex_eval ex_emit c02_chart f1 now s
+      = execute_once unit unit ex_exec ex_eval ex_emit c02_chart f2 now s.
+  Proof. intros f1 f2 now s. apply C02_fuel_irrelevant_checked. exact c02_chart_wf. Qed.
 End C02Example.
 
 Print Assumptions C02_legal_b_sound.
@@ -2937,4 +3492,8 @@ Print Assumptions C02_run.
 Print Assumptions wf_chart_b_sound.
 Print Assumptions C02_step_checked.
 Print Assumptions C02_run_checked.
+Print Assumptions C02_stabilize_terminates.
+Print Assumptions C02_stabilize_terminates_checked.
+Print Assumptions C02_fuel_irrelevant.
+Print Assumptions C02_fuel_irrelevant_checked.
 Print Assumptions C02Example.c02_example_theorem.
